@@ -78,8 +78,8 @@ func init() {
 						return ok && g.Kind == "big" && siteOf(g.SubjV) == siteOf(v) && g.Rel == ">=" && g.Bound.equal(tconst(0))
 					}
 				}
-				r := (&MustPass{P: P, Match: nonNeg(split.Call.Args[0])}).MustReach(fn, split)
-				if ex, isEx := split.Call.Args[0].(*ssa.Extract); isEx && !r.Holds {
+				r := (&MustPass{P: P, Match: nonNeg(callArgs(split)[0])}).MustReach(fn, split)
+				if ex, isEx := callArgs(split)[0].(*ssa.Extract); isEx && !r.Holds {
 					// the difference comes from a helper: its error was tested before the split, and every successful
 					// return of the helper hands out a value it tested >= 0
 					if hc, isCall := ex.Tuple.(*ssa.Call); isCall {
@@ -147,7 +147,7 @@ func carriedCheckedRule(P *Program, R *Report) {
 		for _, ins := range outer.Header.Instrs {
 			if b, ok := ins.(*ssa.BinOp); ok && b.Op == token.LSS {
 				if c, ok := b.Y.(*ssa.Call); ok && isCallTo(c, "builtin:len") {
-					seq, sok := seqOf(c.Call.Args[0])
+					seq, sok := seqOf(callArgs(c)[0])
 					keysDetail = seqString(seq)
 					keysOK = sok && keysDetail == "[(rangekey("+pdRP+"))*]"
 				}
@@ -206,7 +206,7 @@ func carriedCheckedRule(P *Program, R *Report) {
 	str := "<gabi.ProofD>.cachedRangeStructures[" + idx + "][#j]"
 	q1 := &MustPass{P: P, Match: func(a Atom) bool {
 		c, ok := callAtom(a, True, kRPVerify)
-		return ok && desc(c.Call.Args[0]) == str && desc(c.Call.Args[1]) == pkD && desc(c.Call.Args[2]) == proof
+		return ok && desc(callArgs(c)[0]) == str && desc(callArgs(c)[1]) == pkD && desc(callArgs(c)[2]) == proof
 	}}
 	if innerFn != fn {
 		chk("helper-succeeded", "for every index the helper holding the per-proof loop returned without error", &MustPass{NoInterproc: true, Match: func(a Atom) bool {
@@ -222,7 +222,7 @@ func carriedCheckedRule(P *Program, R *Report) {
 		if !ok || !isCallTo(c, "builtin:append") {
 			return false
 		}
-		d := desc(c.Call.Args[1])
+		d := desc(callArgs(c)[1])
 		return strings.HasPrefix(d, "call:"+kRPCFP+"("+str+","+pkD+","+proof+",<gabi.ProofD>.C)")
 	}}
 	bindPath(fn, innerFn, 2, func() { r2 = q2.ForAllBody(innerFn, inner, innerAcc, false) })
@@ -243,7 +243,7 @@ func carriedCheckedRule(P *Program, R *Report) {
 	}
 	rf := ext.Parent()
 	bindPath(fn, rf, 2, func() {
-		a := ext.Call.Args
+		a := callArgs(ext)
 		ok := desc(a[0]) == pdRP+"[*][#j]" && desc(a[1]) == "rangekey("+pdRP+")" && desc(a[2]) == pkD
 		R.decide(rule, kProofDCC+":extract:index", "each structure is extracted with the index its proof is filed under", ok, desc(a[0])+", "+desc(a[1]), P.Pos(ext.Pos()))
 		okStore := false
@@ -325,10 +325,10 @@ func bindingRule(P *Program, R *Report) {
 			if !ok || !calleeIs(c, "fmt.Sprintf") {
 				return
 			}
-			f := desc(c.Call.Args[0])
+			f := desc(callArgs(c)[0])
 			if f == `"R%d"` {
 				n++
-				if seq, ok := seqOf(c.Call.Args[1]); !ok || len(seq) != 1 || seq[0].D != "arg#0" {
+				if seq, ok := seqOf(callArgs(c)[1]); !ok || len(seq) != 1 || seq[0].D != "arg#0" {
 					bad++
 				}
 			}
@@ -383,7 +383,7 @@ func extractLimitsRuleFor(P *Program, R *Report, rule string) {
 		R.bad(rule, kExtract+":construct", "the structure is built by newWithParams from the proof's descriptor", "no call", P.Pos(fn.Pos()))
 		return
 	}
-	a := npc.Call.Args
+	a := callArgs(npc)
 	R.decide(rule, kExtract+":descriptor-args", "newWithParams(index, p.Sign, p.A, p.K, nil, len(p.Cs), p.Ld)",
 		desc(a[0]) == "arg#1" && desc(a[1]) == rpP+".Sign" && desc(a[2]) == rpP+".A" && desc(a[3]) == rpP+".K" && desc(a[5]) == lenCs && desc(a[6]) == rpP+".Ld", "", P.Pos(npc.Pos()))
 	mp(P, R, rule, kExtract+":sign", "structure => sign is 1 or -1 (checked on the verifier's path, not only for locally created statements)", fn, acc, &MustPass{Match: func(at Atom) bool {
@@ -475,7 +475,7 @@ func relationShapeRule(P *Program, R *Report) {
 		if !ok {
 			return
 		}
-		tk := typeKey(fa.X.Type())
+		tk := faType(fa)
 		if tk != "zkproof.LhsContribution" && tk != "zkproof.RhsContribution" {
 			return
 		}
@@ -487,12 +487,12 @@ func relationShapeRule(P *Program, R *Report) {
 		}
 		v := desc(st.Val)
 		if call, ok := st.Val.(*ssa.Call); ok && calleeIs(call, "fmt.Sprintf") {
-			f := desc(call.Call.Args[0])
-			if seq, ok := seqOf(call.Call.Args[1]); ok && len(seq) == 1 {
+			f := desc(callArgs(call)[0])
+			if seq, ok := seqOf(callArgs(call)[1]); ok && len(seq) == 1 {
 				v = f + "%" + seq[0].D
 			}
 		}
-		switch fieldName(fa.X.Type(), fa.Field) {
+		switch faName(fa) {
 		case "Base":
 			c.base = v
 		case "Secret":
@@ -583,7 +583,7 @@ func relationShapeRule(P *Program, R *Report) {
 		for _, c := range callsIn(f) {
 			n := calleeName(c)
 			if strings.HasPrefix(n, "zkproof.(*QrRepresentationProofStructure).CommitmentsFrom") {
-				d := desc(c.Common().Args[0])
+				d := desc(callArgs(c)[0])
 				seq = append(seq, strings.TrimPrefix(d, rpS+"."))
 			}
 		}
@@ -631,10 +631,10 @@ func provesStatementRule(P *Program, R *Report) {
 			bx, by = by, bx
 		}
 		c, ok := bx.(*ssa.Call)
-		if !ok || bigMethod(c) != "Cmp" || desc(c.Call.Args[0]) != rpP+".K" {
+		if !ok || bigMethod(c) != "Cmp" || desc(callArgs(c)[0]) != rpP+".K" {
 			return false
 		}
-		lv := phiLeavesNN(c.Call.Args[1])
+		lv := phiLeavesNN(callArgs(c)[1])
 		if !(len(lv) == 2 && lv["arg#3"] && lv["new:big.Int"]) {
 			return false
 		}
@@ -676,7 +676,7 @@ func rescalingRule(P *Program, R *Report, rule string) {
 		okF := false
 		for _, c := range callsIn(fn) {
 			if isCallTo(c, kNewParams) {
-				lv := phiLeaves(c.Common().Args[2])
+				lv := phiLeaves(callArgs(c)[2])
 				okF = len(lv) == 2 && lv["arg#2"] && lv["(arg#2*4)"]
 			}
 		}
@@ -800,7 +800,7 @@ func contributionsKeptRule(P *Program, R *Report, rule string) {
 			}
 			n++
 			if !inResult[c] {
-				dropped = append(dropped, desc(c.Call.Args[0])+" at "+P.Pos(c.Pos()))
+				dropped = append(dropped, desc(callArgs(c)[0])+" at "+P.Pos(c.Pos()))
 			}
 		}
 		R.decide(rule, k+":contributions-kept", "the contribution of every sub-relation (mCorrect, cRep[i]) is part of the returned list", n >= 2 && len(dropped) == 0, fmt.Sprintf("%d calls; result dropped: %s", n, strings.Join(dropped, ", ")), P.Pos(fn.Pos()))
